@@ -30,7 +30,9 @@ CJK = ["中文", "日本語", "汉字abc", "abc汉字"]
 TYPO = ['"quoted"', "'single'", "it's", "don't", "James'", "wait...", "...so", "and...then", '"two', 'words"',
         "x=\"v\"", "'tis", "rock'n'roll", '("paren")', "end...\"", "—\"dash\"", "hmm....", "a . . . b", "..",
         "\"nested", "'inner'", "quotes\"", "Jill's", "\\\"esc\\\"", "5'10\"", "don't...can't", "it's...isn't", "'x'...'y'",
-        "word…", "…word", "“…and", "a … b", "wait... (so", "and... [x]", "hmm... \"q\""]
+        "word…", "…word", "“…and", "a … b", "wait... (so", "and... [x]", "hmm... \"q\"",
+        # a closing quote BEFORE the sentence punctuation (the sentence-end rule must know the converted character too)
+        '"promising".', "'fine'!", '"why"?', "(\"ok\")."]
 CODE_CORE = ["`x`", "`a b`", "`foo(bar, baz)`", "`--flag value`", "`*not em*`", "`<tag attr>`", "`it's \"q\"...`",
              "`a|b`", "`{% t %}`", "`[l](u)`", "`` a`b ``", "`` `x` ``", "``` a``b ```", "`` `a - b ``", "`` 1. `x` # y ``",
              "`a  b`", "`- x`"]
@@ -46,7 +48,10 @@ HTML_INL = ["<span class=\"a b\">", "</span>", "<br/>", "<b>", "</b>", "<a href=
 TAG_INL = ["{% tag %}", "{% tag a=1 b=\"two words\" %}", "{{ var }}", "{{ a.b | f(\"x y\") }}", "{# note's #}",
            "<!-- c \"q\" -->", "{% f %}{% /f %}", "{% if x %}", "{% endif %}", "{% t x=\"a...b\" %}", "{{ a...b }}",
            "<!-- wait... \"q\" it's -->", "{# it's... so #}"]
-ESCAPES = ["\\*", "\\_", "\\#", "\\[x\\]", "\\>", "a\\|b", "&amp;", "&lt;", "&#35;", "&copy;"]
+ESCAPES = ["\\*", "\\_", "\\#", "\\[x\\]", "\\>", "a\\|b", "&amp;", "&lt;", "&#35;", "&copy;", "3\\)", "\\-", "\\+"]
+# an escaped ordered-list marker: not in documents with tag lines (listed finding *-escaped-number-in-tag-paragraph: the
+# escape is dropped and the tag handler then takes the line for a list item; exercised by its own sub-workload in C01/C02)
+ESCAPES_NUM = ["1999\\."]
 HAZ = ["-", "+", "*", ">", "#", "##", "1.", "2)", "10.", "---", "===", "=", "--", "***", "___", "```", "~~~",
        ">>", "|", "+x", "#tag", "1.5", "\\", "[x]", "[ ]", "<", "&", ":", "- - -", "* * *", "~", "|a|b|", "<div>"]
 INFO = ["", "", "python", "sh -x", "c++", "text title=\"a b\"", "{.cls #id}"]
@@ -119,7 +124,7 @@ class Gen:
             return r.choice(CJK)
         if k < 0.90:
             self.feats.add("escape")
-            return r.choice(ESCAPES)
+            return r.choice(ESCAPES + ESCAPES_NUM if not self.tags else ESCAPES)
         if k < 0.93:
             return r.choice(NOT_END)
         return "".join(r.choice("abcdefghijklmnop") for _ in range(r.randint(1, 14)))
@@ -153,7 +158,11 @@ class Gen:
             lab = r.choice(self.ref_labels)
             return r.choice([f"[{lab}]", f"[some text][{lab}]", f"[{lab}][]"])
         self.feats.add("strike")
-        return "~~" + r.choice(WORDS) + "~~"
+        w = r.choice(WORDS)
+        # delimiter runs whose flanking depends on what stands outside them (punctuation inside: a soft line break outside
+        # must count as whitespace exactly like a space does)
+        return r.choice(["~~" + w + "~~", "~~" + w + "~~", "~(" + w + ")~", "~~(" + w + ").~~", "~" + w + "~", "*(" + w + ")*",
+                         "**\"" + w + "\"**", "_(" + w + ")_"])
 
     def words(self, n: int, atoms: float = 0.12, allow_first_atom: bool = True) -> list[str]:
         r = self.r
@@ -209,6 +218,11 @@ class Gen:
                 if _could_start_block(ws[0]) or _is_tagword(ws[0]):
                     ws[0] = "Then"
             segs.append(ws)
+        if any(_is_tagword(w) for ws in segs for w in ws):
+            # listed finding *-escaped-number-in-tag-paragraph: no escaped ordered marker in a paragraph that has tags
+            segs = [[("1999" if w == "1999\\." else w) for w in ws] for ws in segs]
+        elif any(w == "1999\\." for ws in segs for w in ws):
+            self.feats.add("escaped-number")
         if nseg > 1:
             self.feats.add("hardbreak")
         self.feats.add("para")
@@ -499,7 +513,8 @@ class Ser:
             if si == 0 and "task" in b:
                 cur = f"[{b['task']}] " + cur
             for a, w in zip(ws, ws[1:]):
-                can_break = (self.wild and not getattr(self, "nobreak", False) and not _is_tagword(a) and not _is_tagword(w) and not _could_start_block(w)
+                can_break = (self.wild and not getattr(self, "nobreak", False) and not _is_tagword(a) and not _is_tagword(w)
+                             and (not _could_start_block(w) or (w == "1999\\." and self.cdepth == 0))
                              and not a.endswith("\\") and w[:1].isalnum() and a[-1:] != ">")
                 if can_break and L.random() < 0.22:
                     lines.append((cur + (" " if L.random() < 0.1 else ""), "x" if first else "pc"))
